@@ -130,7 +130,10 @@ fn valid_layout(mbr: &Block, boot: &Block, info: &Block, part: usize, k: u32) ->
     let mut root_cluster = 0;
     let mut info_loc = 0;
     if fat32 {
-        kani::assume(root_entries == 0 && fs16 == 0);
+        // BPB_FATSz16 is 0 on volumes a formatter produces; the specification's FATSz
+        // formula (16-bit field if non-zero, else the 32-bit field) is what is checked,
+        // so a non-zero 16-bit field is allowed here
+        kani::assume(root_entries == 0);
         kani::assume(le16(b, 42) == 0); // FSVer 0.0
         root_cluster = le32(b, 44);
         kani::assume(root_cluster >= 2 && (root_cluster as u64) < clusters + 2);
